@@ -3,7 +3,7 @@
 violation file as a permanent regression input replays/<check>/seed-<name>.json (verified: fails with the patch, passes on HEAD)."""
 import os, sys, json, subprocess, tempfile, shutil, glob
 V = os.path.dirname(os.path.dirname(os.path.abspath(__file__)))
-OTHER = {"C02-D": "C07", "C19-D": "C17", "C13-D": None}
+OTHER = {"C02-D": "C07", "C19-D": "C17", "C13-D": None, "C14-E": None, "C16-G": None, "C01-H": "C12", "C03-H": "C15", "C04-G": "C15"}
 names = sorted(d for d in os.listdir(os.path.join(V, "seeded")) if os.path.isdir(os.path.join(V, "seeded", d)))
 only = sys.argv[1:]
 for name in names:
